@@ -1,6 +1,22 @@
 HOOK_COMMITS = []
 NOT_APPLICABLE = {}
 CHECKS = {
+    "C01": {
+        "technique": "property-based testing: generated pipeline specs rendered as Python objects or permuted YAML, tracing probe models, exact comparison of the observed call list with a reference list; exhaustive enumeration of all group pairs",
+        "text": "Every generated pipeline (any subset of groups, enabled patterns, arbitrary argument dicts, 1..4 steps) is run in exposure "
+                "(debug on/off), sequential and dask observation; the call log of tracing probes must equal the reference list built from a "
+                "literal copy of the group order. All 45 group pairs x 3 enabled patterns x 2 renderings are enumerated on every run. Exploration, no absence claim.",
+        "design_ref": "DESIGN.md section 3, C01",
+        "note": "Trusted: the probe's own logging; the literal group-order tuple copied from the property statement. The dask path's single eager metadata run is allowed.",
+    },
+    "C02": {
+        "technique": "property-based testing: generated schedules x renderings x write plans x detector histories with clock-and-bucket probes (reference clock computed in the harness); invalid schedules by mutation through 7 entry points",
+        "text": "Valid schedules in 12 renderings are run with a probe first and last in each step; clock values and the state of every bucket at "
+                "step start are compared with a reference computed from the spec, for fresh detectors, detectors with planted leftovers and detectors "
+                "that already ran other exposures. Mutated (invalid) schedules must raise before any probe runs. Exploration.",
+        "design_ref": "DESIGN.md section 3, C02",
+        "note": "Trusted: probe reads through the detector's public properties. NaN schedules and zeros at later positions are outside both the accept and the reject set.",
+    },
     "C13": {
         "technique": "model-based property testing of generated operation sequences (Hypothesis) against a reference container model",
         "text": "Generated set/update/+=/empty/read/==/detector-assignment sequences on photon, pixel, signal, image and phase "
